@@ -53,6 +53,9 @@ type clientStream struct {
 	teardown func(bool)
 
 	rCh chan *goatorepo.Body
+
+	// singleResponse: the RPC's handler replies with exactly one message
+	singleResponse bool
 }
 
 var _ grpc.ClientStream = (*clientStream)(nil)
@@ -67,6 +70,37 @@ func NewStream(
 	statsHandlers []stats.Handler,
 	beginTime time.Time,
 ) grpc.ClientStream {
+	return newClientStream(ctx, id, method, rw, teardown, sourceAddress, destAddress, statsHandlers, beginTime, false)
+}
+
+// NewSingleResponseStream is NewStream for an RPC whose handler replies with
+// exactly one message (client-streaming RPCs): the reply is reported as a
+// success only once the peer's final status says so, because the handler may
+// still fail after sending it.
+func NewSingleResponseStream(
+	ctx context.Context,
+	id uint64,
+	method string,
+	rw types.RpcReadWriter,
+	teardown func(),
+	sourceAddress, destAddress string,
+	statsHandlers []stats.Handler,
+	beginTime time.Time,
+) grpc.ClientStream {
+	return newClientStream(ctx, id, method, rw, teardown, sourceAddress, destAddress, statsHandlers, beginTime, true)
+}
+
+func newClientStream(
+	ctx context.Context,
+	id uint64,
+	method string,
+	rw types.RpcReadWriter,
+	teardown func(),
+	sourceAddress, destAddress string,
+	statsHandlers []stats.Handler,
+	beginTime time.Time,
+	singleResponse bool,
+) *clientStream {
 
 	ctx, cancel := context.WithCancel(ctx)
 
@@ -81,6 +115,8 @@ func NewStream(
 		destAddress:   destAddress,
 		statsHandlers: statsHandlers,
 		beginTime:     beginTime,
+
+		singleResponse: singleResponse,
 	}
 
 	cs.teardown = func(sendRst bool) {
@@ -283,7 +319,34 @@ func (cs *clientStream) RecvMsg(m interface{}) error {
 				Length:   len(body.GetData()),
 			})
 		}
+		if cs.singleResponse {
+			return cs.recvEnd()
+		}
 		return nil
+	}
+}
+
+// recvEnd waits for the end of a stream whose one reply has been received and
+// reports how it ended: nil for a clean end, the peer's status otherwise.
+func (cs *clientStream) recvEnd() error {
+	select {
+	case <-cs.ctx.Done():
+		if done, err := cs.readErrorIfDone(); done {
+			if err == io.EOF {
+				return nil
+			}
+			return err
+		}
+		return toStatusError(cs.ctx.Err())
+	case _, ok := <-cs.rCh:
+		if ok {
+			return status.Error(codes.Internal, "cardinality violation: expected one response message")
+		}
+		_, err := cs.readErrorIfDone()
+		if err == io.EOF {
+			return nil
+		}
+		return err
 	}
 }
 
